@@ -1213,7 +1213,7 @@ func runSrvScenario(focus string, seed uint64, size int, t *Trace) error {
 		s.Snap()
 		s.Disk()
 	}
-	if focus == "C12" && !s.Lost && s.E.S != nil && r.Chance(20) {
+	if focus == "C12" && !s.Lost && s.E.S != nil && r.Chance(35) {
 		// connections left idle or half-sent on the sync port must not hold the shutdown for longer than the
 		// server's own shutdown bound (5 s in this build; the handler gives a connection half of it)
 		httpPort, tcp, _ := s.E.S.Ports()
@@ -1229,10 +1229,10 @@ func runSrvScenario(focus string, seed uint64, size int, t *Trace) error {
 		}
 		// the same on the HTTP port: a connection that says nothing, one that stops inside the request
 		// header, one that sends a complete header and then only part of the announced body
-		for i, n := 0, r.Intn(3); i < n; i++ {
+		for i, n := 0, 1+r.Intn(3); i < n; i++ {
 			if c, err := net.DialTimeout("tcp", fmt.Sprintf("127.0.0.1:%d", httpPort), 2*time.Second); err == nil {
 				paths := []string{"/api/v1/authorize-equipment", "/api/v1/register-gca", "/api/v1/authorized-servers", "/api/v1/equipment-migrate"}
-				switch r.Intn(3) {
+				switch r.Intn(4) {
 				case 0:
 					t.Count("shutdown-http-idle")
 				case 1:
